@@ -140,6 +140,14 @@ def xff10_roundtrip(h):
                  *[a == b for a, b in zip(items[2:], exp)]) if len(items) == 2 + len(exp) else False)
 
 
+@oset("at5.xFF10.roundtrip.any-length", ["C03", "C04"], [XERR + ":AcErrorInformationEncoder.size", XERR + ":AcErrorInformationEncoder.encode",
+                                                         XERR + ":AcErrorInformationDecoder.decode"],
+      assumptions=["str modelled by its UTF-8 bytes (a symbolic-length buffer); bytes.decode raises exactly on invalid UTF-8"])
+def xff10_roundtrip_any(h):
+    from contracts.codec import roundtrip_err_info_any_length
+    roundtrip_err_info_any_length(h, XERR, at5_ext_subheader, ID_ERR)
+
+
 @oset("at5.xFF10.decode-vendor-reading", ["C05", "C17"], [XERR + ":AcErrorInformationDecoder.decode"],
       assumptions=["len(payload) == sub-header.message_length (what the receive path hands to a sub-decoder)"])
 def xff10_decode(h):
@@ -652,6 +660,43 @@ def _zone_names_roundtrip(h, name_bytes):
       bounded=f"name length <= {ZONE_NAME_MAX} bytes (every length 0..{ZONE_NAME_MAX}, every byte value incl. multi-byte UTF-8)")
 def xff13_roundtrip_one(h):
     _zone_names_roundtrip(h, [h.choice("name_bytes", list(range(0, ZONE_NAME_MAX + 1)))])
+
+
+@oset("at5.xFF13.roundtrip.one-zone-any-length", ["C03", "C04"], ZN_FNS,
+      assumptions=["str modelled by its UTF-8 bytes (a symbolic-length buffer); bytes.decode raises exactly on invalid UTF-8"])
+def xff13_roundtrip_one_any(h):
+    """One zone whose name has *any* length (unbounded): 0..255 bytes round-trip exactly in the vendor layout,
+    a longer name cannot be announced by the length byte and is refused (ValueError), never truncated."""
+    name = h.string_any("zone_name")
+    nb = h.length(h.utf8_view(name))
+    z = h.int("zone_number", 0, 255)
+    msg = h.new(XZN + ":ZoneNamesMessage", zone_names={z: name})
+    enc, dec = h.new(XZN + ":ZoneNamesEncoder"), h.new(XZN + ":ZoneNamesDecoder")
+    s = h.method(enc, "size", msg)
+    h.oblige("size() does not raise", s.ok)
+    if not s.ok:
+        return
+    h.oblige("announced size = zone index + length byte + name bytes", h.eq(s.value, 2 + nb))
+    hdr = at5_ext_subheader(h, ID_ZONE_NAMES, s.value)
+    e = h.method(enc, "encode", hdr, msg)
+    if h.branch(nb > 255):
+        h.oblige("a name longer than the length byte can announce is refused (ValueError), never truncated or wrapped", e.raised("ValueError"))
+        return
+    h.oblige("encode() does not raise for a name of 0..255 bytes", e.ok)
+    if not e.ok:
+        return
+    out = h.frozen(e.value)
+    h.oblige("announced size == number of payload bytes produced", h.eq(h.length(out), s.value))
+    head, tail = h.split_at(out, 2)
+    h.oblige("wire: zone index, name length, then exactly the UTF-8 bytes of the name",
+             And(head[0] == z, head[1] == nb, h.eq(tail, h.utf8_view(name))))
+    d = h.method(dec, "decode", out, hdr)
+    h.oblige("decode() accepts the encoder's output", d.ok)
+    if not d.ok:
+        return
+    h.oblige("decoded message equals the original", h.eq(h.attr(d.value, "message"), msg))
+    h.oblige("nothing left over", h.eq(h.length(h.attr(d.value, "remaining")), 0))
+    h.cover("roundtrip completes")
 
 
 _ZONE_COUNT_NAME_BYTES = [6, 7, 7, 0, 12, 1, 3, 9, 2, 5, 11, 4, 8, 10, 6, 1]
